@@ -38,6 +38,13 @@ def make_tree():
             f.write(v)
     with open(os.path.join(top, 'secret.txt'), 'wb') as f:
         f.write(b'SECRET')
+    # siblings whose names merely begin with the mapped directory's name (a containment test by
+    # string prefix would take them for being inside)
+    os.makedirs(os.path.join(top, 'root-old'))
+    for name, content in (('root-old/secret.txt', b'SECRET2'), ('root-old/index.html', b'SECRET3'),
+                          ('rootfile', b'SECRET4'), ('root.txt', b'SECRET5')):
+        with open(os.path.join(top, name), 'wb') as f:
+            f.write(content)
     return top, root
 
 
@@ -147,6 +154,11 @@ def run(tier):
             special.add(pre + sec)
             special.add(pre + sec.lstrip('/'))
             special.add(pre + '../' * 6 + sec.lstrip('/'))
+        for pre in ('/static/', '/static/sub/../', '/', '/static/./', '/static/sub/'):
+            for tail in ('../root-old/secret.txt', '../root-old/', '../root-old/index.html',
+                         '../rootfile', '../root.txt', '../../root-old/secret.txt',
+                         '../root-old/../root-old/secret.txt'):
+                special.add(pre + tail)
         paths = sorted(paths)
         if not th:
             paths = [p for i, p in enumerate(paths) if len(p.split('/')) <= 4 or i % 3 == 0]
